@@ -49,8 +49,16 @@ def polygons(coords, indices=None, out=None, **kw):
     coords = asarray(coords)
     if coords.ndim != 3:
         raise Unsupported('shapely.polygons with coords of rank != 3')
+    if indices is None and out is None:
+        # SH-POLYGONS: a new array, element k = Polygon(coords[k])
+        used('SH-POLYGONS')
+        c = core.ctx()
+        mk0 = _fn('Polygon_' + c._name('polysite'), z3.IntSort(), GeomSort)
+        nverts0 = coords.shape[1]
+        src = coords.frozen()
+        return NDArray((coords.shape[0],), lambda i: PolyRef(mk0, i[0], src, i[0], nverts0), np.OBJECT)
     if indices is None or out is None:
-        raise Unsupported('shapely.polygons without indices/out')
+        raise Unsupported('shapely.polygons with only one of indices / out')
     indices = asarray(indices)
     member = np.membership(indices)
     pos = np.position_in(indices)
@@ -431,6 +439,38 @@ def convex_hull(geoms):
     return NDArray(a.shape, at, np.OBJECT)
 
 
+def _rewriting(name):
+    """SH-REWRITE: element-wise functions that return ANOTHER geometry than they were given (simplify, remove_repeated_points, normalize,
+    make_valid, segmentize, set_precision, reverse, buffer, ...): the result is the term name#site(g) - nothing is known about it except
+    that it is a function of g and of the call (the other arguments are part of the call site token), in particular it is not known to equal g,
+    to have the same coordinates, or the same number of them. None stays None."""
+    def f(geoms, *a, **kw):
+        used('SH-REWRITE')
+        c = core.ctx()
+        site = getattr(c, '_rewrite_sites', 0)
+        c._rewrite_sites = site + 1
+        fz = _fn(f'{name}#{site}', GeomSort, GeomSort)
+
+        def one(g):
+            r = AbsGeom(fz(_term_of(g)))
+            r.rewritten_from = (name, g)
+            return r
+        if geoms is None or isinstance(geoms, (AbsGeom, PolyRef)) or hasattr(geoms, 'term') or (hasattr(geoms, 'z') and not hasattr(geoms, 'fn')):
+            return None if geoms is None else one(geoms)
+        arr = asarray(geoms).frozen()
+
+        def at(i):
+            g = arr.fn(i)
+            if g is None:
+                return None
+            if isinstance(g, Maybe):
+                return Maybe.ite(g.none, None, one(g.val))
+            return one(g)
+        return NDArray(arr.shape, at, np.OBJECT)
+    f.__name__ = name
+    return model(f)
+
+
 @model
 def get_coordinates(geoms, **kw):
     """SH-GET-COORDINATES (opaque here): all coordinates of all geometries as an (M, 2) array"""
@@ -550,6 +590,14 @@ class ShapelyModule:
     convex_hull = staticmethod(convex_hull)
     get_coordinates = staticmethod(get_coordinates)
     is_valid = staticmethod(is_valid)
+    simplify = staticmethod(_rewriting('simplify'))
+    remove_repeated_points = staticmethod(_rewriting('remove_repeated_points'))
+    normalize = staticmethod(_rewriting('normalize'))
+    make_valid = staticmethod(_rewriting('make_valid'))
+    segmentize = staticmethod(_rewriting('segmentize'))
+    set_precision = staticmethod(_rewriting('set_precision'))
+    reverse = staticmethod(_rewriting('reverse'))
+    orient_polygons = staticmethod(_rewriting('orient_polygons'))
     unary_union = staticmethod(unary_union)
     union_all = staticmethod(unary_union)
     coverage_union_all = staticmethod(coverage_union_all)
